@@ -339,6 +339,11 @@ impl Emitter {
                         stack.push((x, false));
                         stack.push((y, false));
                     }
+                    T::Fma(x, y, z) => {
+                        stack.push((x, false));
+                        stack.push((y, false));
+                        stack.push((z, false));
+                    }
                     T::C(_) | T::V(_) => {}
                 }
                 continue;
@@ -370,6 +375,7 @@ impl Emitter {
                 T::Max(x, y) => format!("(ite (>= {0} {1}) {0} {1})", r(self, x), r(self, y)),
                 T::Min(x, y) => format!("(ite (<= {0} {1}) {0} {1})", r(self, x), r(self, y)),
                 T::Ite(c, x, y) => format!("(ite b{} {} {})", c, r(self, x), r(self, y)),
+                T::Fma(x, y, z) => format!("(+ (* {} {}) {})", r(self, x), r(self, y), r(self, z)),
                 T::Sqrt(x) => {
                     out.push_str(&format!("(declare-const t{} Real)\n(assert (and (>= t{} 0.0) (= (* t{} t{}) {})))\n", n, n, n, n, r(self, x)));
                     self.tdone.insert(n);
